@@ -123,7 +123,13 @@ class Ctx:
         return True
 
     def machinery(self, msg):
+        """The check itself could not do its work (exit 2) - unless violations of the property were already found and
+        reported: code that breaks a property often also keeps later phases from running, and the violations are the
+        verdict then (exit 1)."""
         print("MACHINERY: " + msg)
+        if self.violations:
+            print("%s: %d violation(s) (run incomplete)" % (self.pid, self.violations))
+            raise SystemExit(1)
         raise SystemExit(2)
 
     # ---------------------------------------------------------------- evidence
